@@ -13,6 +13,21 @@ from . import repo
 from . import spec
 from . import sym as S
 
+_scratch = {}
+
+
+def scratch_file(name='inst.txt'):
+    """One file path per process, rewritten for every instance (a user who regenerates / edits an instance
+    file and solves the same path again must get the new instance)."""
+    import atexit
+    pid = os.getpid()
+    if _scratch.get('pid') != pid:
+        d = tempfile.mkdtemp(prefix='vf_scratch_%d_' % pid)
+        _scratch.update(pid=pid, dir=d)
+        atexit.register(shutil.rmtree, d, True)
+    return os.path.join(_scratch['dir'], name)
+
+
 FLAGS = {'maxsize': '-maxsize', 'minsize': '-minsize', 'gen': '-gen', 'gre': '-gre',
          'mincost': '-mincost', 'minsqcost': '-minsqcost', 'lmb': '-lmb',
          'lsb': '-lsb', 'mincostlsb': '-mincostlsb'}
@@ -135,7 +150,6 @@ def run_e2(I, flags, seq, argv_extra=None, hook_factory=symbolic_hook,
         return e.token(v)
 
     text = spec.inst_to_text(J, tok=tok)
-    d = tempfile.mkdtemp(prefix='vf_e2_')
     run = E2Run()
     run.ns = ns
     run.inst = J
@@ -144,8 +158,8 @@ def run_e2(I, flags, seq, argv_extra=None, hook_factory=symbolic_hook,
     run.snaps = []
     run.text = text
     run.clock = clk
-    try:
-        path = os.path.join(d, 'inst.txt')
+    if True:
+        path = scratch_file()
         with open(path, 'w') as f:
             f.write(text)
         argv = ['-f', path, '-na', str(I.na)]
@@ -162,8 +176,6 @@ def run_e2(I, flags, seq, argv_extra=None, hook_factory=symbolic_hook,
         run.solver = solver
         if solve:
             solver.solve(msg=False, timeLimit=time_limit, threads=None, write=False)
-    finally:
-        shutil.rmtree(d, ignore_errors=True)
     return run
 
 
